@@ -149,6 +149,17 @@ func init() {
 		"Goroutines": func(fr *frame, a []value) (value, bool) {
 			return fr.i.liveGoroutines(), true
 		},
+		// Handoff: deterministically pass the baton to the main goroutine if it
+		// can run (models "the waiting goroutine is scheduled now").
+		"Handoff": func(fr *frame, a []value) (value, bool) {
+			s := fr.i.sched
+			main := s.gs[0]
+			if s.cur != main && !main.done && (main.blocked == nil || main.blocked()) {
+				fr.i.switchTo(main)
+			}
+			return nil, true
+		},
+		"Yield": func(fr *frame, a []value) (value, bool) { fr.i.yield(); return nil, true },
 		"AtomicYield": func(fr *frame, a []value) (value, bool) {
 			fr.i.sched.atomicYield = a[0].(bool)
 			return nil, true
